@@ -53,5 +53,7 @@ fn main() {
     for line in stdin.lock().lines() {
         let line = line.unwrap();
         writeln!(out, "{}", f(&line)).unwrap();
+        // one answer per line, flushed: when a case does not return, the orchestrator knows which one
+        out.flush().unwrap();
     }
 }
